@@ -2,6 +2,7 @@
    runtime.Runtime + metrics.Store, with the snapshot the harness took after
    every step, re-computed by Run/Loader.v (and Run/DirScan.v). *)
 From V Require Export Run.Loader.
+From V Require Export Corr.BytesLit.
 Local Open Scope N_scope.
 
 (* ---- observed snapshot ---- *)
